@@ -35,6 +35,20 @@ CLAIMED = {
              "is modelled (split/int) and correspondence-checked, not proved equal to the tuple form.",
         technique="Coq proof (model = declarative filter) + differential correspondence on real databases",
         design="4 (C06)"),
+    "C08": dict(
+        text="Coq theorems (Properties/C08.v, closed under the global context): unquote(quote s) = s for every string over "
+             "all code points with the percent-encoding table regenerated from parser.py on every run; encoded text is free of "
+             "tab/newline/CR/;/=/,/&; split_with D (reconstruct m D) = Ok m for ALL mappings of the property (word-like unique "
+             "keys, non-empty lists of non-empty unicode strings) and all 24 GFF3-style dialects; the supplied-dialect parser is "
+             "total. The GTF-standard round trip, the nine-column framing of the printed line and totality of the inference "
+             "path against the real parser are decided by the correspondence (6k mappings x 48 dialects, every string up to "
+             "length 6 over the structural alphabet screened through both parser paths).",
+        note="Trusted: Coq kernel + vm_compute; Model/Parser.v (hand model of _split_keyvals/_reconstruct/Feature.__str__) and "
+             "Base/Utf8.v (model of urllib.parse.unquote + UTF-8 'replace') are tied to the code by the correspondence only; "
+             "_to_quote is translator-generated. GTF-style round trip is not yet a theorem (correspondence only). Known finding "
+             "F16 (non-standard GTF dialects) is recorded with a Coq refutation witness (Examples/C08_inhabited.v).",
+        technique="Coq proof (codec round-trip theorems over generated quoting table) + differential correspondence incl. exhaustive short strings",
+        design="4 (C08)"),
 }
 
 PENDING_REASON = "machinery for this property is not built yet in this revision (planned, see DESIGN.md section 4/9); not claimed until its check exists"
